@@ -18,9 +18,9 @@ CLAIMS = {
    tech="Coq proof (queue/timer invariants, accounting, exact completion time) + trace equality + asio timer-contract oracle on implementation traces",
    text="Theorems in coq/Properties/Properties_C03.v for every program and session: queue sorted/consistent in every reachable state, upper-bound (stable) insertion, order-preserving removal, due waits complete in queue order, success exactly at max(expiry, start) (up to the known finding, with a checked witness), cancel/re-arm contract, wait on expired timer completes at once, waits started = completed + overwritten + pending."),
  "C09": dict(
-   note=COMMON_NOTE + "Model: coq/Model/Queue.v inside coq/Model/Sim.v. The recurrence theorem is about timely schedules (the queue's one outstanding event is delivered when due), which is what the C02/C03 theorems give for the kernel; that composition step is validated by the correspondence, not a single Coq theorem. ser_double (bit-exact integer emulation of the binary64 computation) is validated against the C++ doubles on every run; its distance to the real quotient size/bw is not proved.",
+   note=COMMON_NOTE + "Model: coq/Model/Queue.v inside coq/Model/Sim.v. The recurrence theorem is about timely schedules (the queue's one outstanding event is delivered when due), which is what the C02/C03 theorems give for the kernel; that composition step is validated by the correspondence, not a single Coq theorem. ser_double (bit-exact integer emulation of the binary64 computation) is validated against the C++ doubles on every run; that it is within one nanosecond of the real quotient size*1e9/bw for every bandwidth below 2^31 and every packet size up to 2^17 is the theorem C09_service_time_is_size_over_bandwidth_within_one_tick (coq/Proofs/FpProofs.v).",
    tech="Coq proof (invariant of a timed automaton around the queue, for every packet type and arrival process) + trace equality with probes around every queue + recurrence oracle on implementation traces",
-   text="Theorems in coq/Properties/Properties_C09.v: for every timely schedule (any arrival process, arrivals coinciding with departures in either order) the departures are exactly those of the recurrence leave_i = max(leave_{i-1}, arrive_i + latency) + service_i, FIFO; corollaries: minimum transit, rate bound, work conservation; service time is what the C++ computes and is non-negative."),
+   text="Theorems in coq/Properties/Properties_C09.v: for every timely schedule (any arrival process, arrivals coinciding with departures in either order) the departures are exactly those of the recurrence leave_i = max(leave_{i-1}, arrive_i + latency) + service_i, FIFO; corollaries: minimum transit, rate bound, work conservation; service time is what the C++ computes, is non-negative and is size*1e9/bandwidth to within one nanosecond."),
  "C10": dict(
    note=COMMON_NOTE + "Model: coq/Model/Queue.v. Drop callbacks of TCP sockets are covered under C05/C06; here the callback is the harness's.",
    tech="Coq proof (byte-account invariant and interleaving invariant over all histories, generic in the packet type) + trace equality + tail-drop oracle on implementation traces",
